@@ -28,6 +28,10 @@ STAGES = {
     "C15": [S("e_seq", "asu", 12000, 400000)],
     "C03": [S("e_tbb", "asu", 9000, 300000), S("e_tbb", "tsan", 4000, 120000, gate=False)],
     "C20": [S("e_tbb", "asu", 4000, 60000), S("e_demo_mcb", "asu", 2000, 40000), S("e_demo_approx", "asu", 2000, 40000)],
+    "C07": [S("e_seq", "asu", 4000, 120000, leakcheck=True), S("e_comp", "asu", 4000, 120000, leakcheck=True), S("e_tbb", "asu", 2500, 80000, leakcheck=True),
+            S("e_mpi", "asu", 2000, 60000, leakcheck=True), S("e_tbb", "tsan", 1500, 40000, gate=False), S("e_mpi", "tsan", 1000, 30000, gate=False),
+            S("e_demo_mcb", "asu", 600, 15000, leakcheck=True), S("e_demo_approx", "asu", 600, 15000, leakcheck=True), S("e_demo_stats", "asu", 400, 8000, leakcheck=True), S("e_demo_mpi", "asu", 600, 15000, leakcheck=True),
+            S("e_seq", "plain", 0, 400, wrapper="valgrind", gate=False, nworkers=8), S("e_comp", "plain", 0, 400, wrapper="valgrind", gate=False, nworkers=8)],
     "C11": [S("e_demo_mcb", "asu", 3000, 60000), S("e_demo_approx", "asu", 3000, 60000), S("e_demo_stats", "asu", 1500, 30000), S("e_demo_mpi", "asu", 3000, 60000)],
     "C04": [S("e_mpi", "asu", 8000, 250000)],
     "C10": [S("e_comp", "asu", 20000, 600000)],
@@ -88,6 +92,12 @@ SAN_ENV = {
     "TSAN_OPTIONS": "exitcode=66:halt_on_error=1:second_deadlock_stack=1:history_size=4:report_signal_unsafe=0",
 }
 
+def stage_env(stage):
+    env = dict(os.environ); env.update(SAN_ENV)
+    if stage.get("leakcheck"): env["SIM_LEAKCHECK"] = "1"       # leak check after every run, attributed to that run
+    else: env["ASAN_OPTIONS"] = env["ASAN_OPTIONS"].replace("detect_leaks=1", "detect_leaks=0")
+    return env
+
 def classify_log(text, rc):
     m = re.search(r"ERROR: AddressSanitizer: ([A-Za-z0-9_-]+)", text)
     if m: return "asan:" + m.group(1)
@@ -97,6 +107,8 @@ def classify_log(text, rc):
     if m: return "tsan:" + m.group(1).strip().replace(" ", "_")
     m = re.search(r"runtime error: ([^\n]{0,60})", text)
     if m: return "ubsan:" + re.sub(r"[^A-Za-z0-9]+", "_", m.group(1))[:40]
+    m = re.search(r"==\d+== (Invalid (?:read|write|free)|Conditional jump or move depends on uninitialised|Use of uninitialised value|Mismatched free|Source and destination overlap)", text)
+    if m: return "valgrind:" + re.sub(r"[^A-Za-z0-9]+", "_", m.group(1))[:40]
     if "HANG" in text or rc == 78: return "hang"
     if rc is not None and rc < 0: return "signal:%d" % (-rc)
     if "terminate called" in text or "Assertion" in text: return "abort"
@@ -117,7 +129,10 @@ class Worker:
         self.segments += 1
         cmd = [binary(self.stage), "--prop", self.prop, "--tier", self.stage.get("tier_arg") or self.tier, "--seed", str(self.seed), "--from", str(frm), "--to", str(self.to),
                "--stride", str(self.stride), "--dir", self.rundir, "--id", str(self.wid), "--wall", str(self.wall)]
-        env = dict(os.environ); env.update(SAN_ENV)
+        if self.stage.get("leakcheck"): cmd.append("--leakcheck")
+        if self.stage.get("wrapper") == "valgrind":
+            cmd = ["valgrind", "-q", "--error-exitcode=99", "--exit-on-first-error=yes", "--num-callers=20"] + cmd + ["--timeout", "900"]
+        env = stage_env(self.stage)
         self.fo = open(self.out, "ab"); self.fe = open(self.err, "ab")
         self.err_start = self.fe.tell()
         self.proc = subprocess.Popen(cmd, stdout=self.fo, stderr=self.fe, env=env, cwd=VERIF)
@@ -153,7 +168,7 @@ def run_stage(stage, prop, tier, seed, rundir, nworkers=None):
     n = stage[tier]
     sprop = stage["prop"] or prop
     if n <= 0: return [], [], 0.0, 0, []
-    k = nworkers or NWORKERS
+    k = nworkers or stage.get("nworkers") or NWORKERS
     k = max(1, min(k, n))
     wall = float(os.environ.get("VERIF_WALL", "150" if tier == "quick" else "3000"))
     t0 = time.time()
@@ -186,7 +201,8 @@ def run_stage(stage, prop, tier, seed, rundir, nworkers=None):
     for i, g in gate_res.items():
         p = byi.get(i)
         if p is None: continue
-        if p["case_hash"] != g["case_hash"] or p["event_hash"] != g["event_hash"] or p["classes"] != g["classes"]:
+        nl = lambda cl: [c for c in cl if c != "lsan:leak"]
+        if p["case_hash"] != g["case_hash"] or p["event_hash"] != g["event_hash"] or nl(p["classes"]) != nl(g["classes"]):
             mism.append((i, p["event_hash"], g["event_hash"]))
     for j in results:
         j["_stage"] = stage
@@ -210,7 +226,7 @@ def match_known(prop, cls, res, known):
     return None
 
 def run_tool(stage, args, timeout=900):
-    env = dict(os.environ); env.update(SAN_ENV)
+    env = stage_env(stage)
     p = subprocess.run([binary(stage)] + args, stdout=subprocess.PIPE, stderr=subprocess.PIPE, env=env, cwd=VERIF, timeout=timeout)
     return p.returncode, p.stdout.decode("utf-8", "replace"), p.stderr.decode("utf-8", "replace")
 
